@@ -414,8 +414,12 @@ func (t *c04Trial) execute() {
 				if !u.Remote && len(runnerPids(filepath.Join(t.L.DataDir(), u.ID))) > 0 {
 					busy = true
 				}
-				if u.Remote && u.RemoteStarted {
-					busy = true // the remote node is still running / being mirrored
+				if u.Remote {
+					// a remote unit that has been started on the remote node is still running / being mirrored
+					// (whether or not the client had seen that before the crash)
+					if rs, _ := st.ExtraData["RemoteStarted"].(bool); rs || u.RemoteStarted {
+						busy = true
+					}
 				}
 			}
 		}
